@@ -14,6 +14,7 @@ import (
 	"github.com/cloudspannerecosystem/memefish/token"
 
 	"verif/explore"
+	"verif/lexref"
 	"verif/oracle"
 )
 
@@ -316,6 +317,10 @@ func checkErrorContract(e *Entry, s string, res ParseResult) map[string]string {
 	}
 	wr, bn := countBad(res.Roots)
 	if res.Err == nil {
+		// the whole input was consumed, so every token of it was lexed: a lexical error (R1) cannot have gone unnoticed
+		if ref := lexref.Lex(s); !ref.OK {
+			viol["C09/lexical-error-accepted/"+e.Name] = fmt.Sprintf("%s(%q): nil error although the input has a lexical error (%s)", e.Name, s, ref.Why)
+		}
 		if wr+bn > 0 {
 			viol["C09/bad-node-without-error/"+e.Name] = fmt.Sprintf("%s(%q): nil error but the tree contains %d Bad node(s)", e.Name, s, wr)
 		}
@@ -325,8 +330,23 @@ func checkErrorContract(e *Entry, s string, res ParseResult) map[string]string {
 		if _, _, toks, ok := tokenBounds(s); ok && len(toks) > 0 {
 			lt := toks[len(toks)-1]
 			exempt := lt.Kind == ";" && !e.Single
-			if lt.Kind == "," {
-				exempt = true
+			if lt.Kind == "," && len(toks) > 1 {
+				// only where a select list ends right before it
+				prevEnd := toks[len(toks)-2].End
+				for _, v := range allNodes(res.Roots) {
+					var items []ast.SelectItem
+					switch sel := v.Node.(type) {
+					case *ast.Select:
+						items = sel.Results
+					case *ast.PipeSelect:
+						items = sel.Results
+					}
+					if len(items) > 0 {
+						if _, end, ok := safePosEnd(items[len(items)-1]); ok && end == prevEnd {
+							exempt = true
+						}
+					}
+				}
 			}
 			if !exempt {
 				res2 := e.Call(s[:lt.Pos])
